@@ -1,4 +1,5 @@
 import DcmVerif.Props.Source_classes
+import DcmVerif.Props.Source_dicts
 import DcmVerif.Props.Source_lookup
 import DcmVerif.Proofs.Key
 /-! Property theorems for C08. Statements only; proofs are by reference to `Proofs/`. -/
